@@ -31,6 +31,10 @@ def _collect_env(run, res, stats):
     """Environment variations (tapes.vary_env) that ACTUALLY took place in this run."""
     faults = stats.setdefault('faults', {})
     probes = stats.setdefault('probes', {})
+    if run.get('refetch') and not run.get('connect'):
+        faults['port_fetched_through_the_accessor_at_every_call'] = faults.get('port_fetched_through_the_accessor_at_every_call', 0) + 1
+    if int(res.end.get('lock_timeouts', 0)) > 0:
+        faults['timed_lock_ran_into_its_deadline'] = faults.get('timed_lock_ran_into_its_deadline', 0) + int(res.end.get('lock_timeouts', 0))
     if run.get('lazycomp'):
         faults['component_does_not_look_up_the_runtime'] = faults.get('component_does_not_look_up_the_runtime', 0) + 1
     for r in res.records:
@@ -49,6 +53,8 @@ def _collect_env(run, res, stats):
             probes['out-event_handler_re-entered_the_shell'] = probes.get('out-event_handler_re-entered_the_shell', 0) + 1
         elif k == 'prototype_locator_destroyed':
             faults['prototype_locator_destroyed_after_construction'] = faults.get('prototype_locator_destroyed_after_construction', 0) + 1
+        elif k == 'probe_register_again':
+            probes['refused_registration_attempted_twice'] = probes.get('refused_registration_attempted_twice', 0) + 1
         elif k == 'sibling_check':
             probes['sibling_instance_inspected_after_the_run'] = probes.get('sibling_instance_inspected_after_the_run', 0) + 1
 
